@@ -53,8 +53,26 @@ def text_of(snap):
     return "\n".join(lines)
 
 
+PARAMS = ("param", "fmp_param", "retpc_param")
+
+
+def hoist_params(snap):
+    """MakeSSA ends with IRBasicBlock.ensure_well_formed(), a stable sort that moves param pseudo-instructions (the
+    declarations of the incoming stack slots: no operands, no effect) to the head of the block.  The validator
+    compares with `before` modulo this hoisting (a modelling assumption, counted in the statistics)."""
+    out, moved = [], 0
+    for lab, insts in snap:
+        ps = [i for i in insts if i["op"] in PARAMS]
+        rest = [i for i in insts if i["op"] not in PARAMS]
+        new = ps + rest
+        moved += new != insts
+        out.append((lab, new))
+    return out, moved
+
+
 class Case:
     def __init__(self, name, before, after):
+        before, self.param_hoisted = hoist_params(before)
         self.name, self.before, self.after = name, before, after
         self.problem = None
         self.build()
